@@ -514,6 +514,9 @@ class SymExec:
                 act = self.ct(args[0])
                 if self._same_class(act, cty):
                     return rec(args[0])
+                # iterator -> const_iterator: same position
+                if cty.lstrip('const ').startswith('__gnu_cxx::__normal_iterator<') and act.replace('const ', '', 1).lstrip().startswith('__gnu_cxx::__normal_iterator<'):
+                    return rec(args[0])
             return ('construct', cty) + tuple(rec(a) for a in args)
         if k == 'CXXScalarValueInitExpr':
             return ('construct', self.ct(e))
@@ -540,7 +543,14 @@ class SymExec:
 
     @staticmethod
     def _same_class(a, b):
-        norm = lambda t: t.replace('const ', '').replace('&', '').strip()
+        # top-level cv / reference only: std::pair<const K, V> is a different class from std::pair<K, V> (a converting copy)
+        def norm(t):
+            t = t.strip()
+            while t.endswith('&'):
+                t = t[:-1].strip()
+            while t.startswith('const ') or t.startswith('volatile '):
+                t = t.split(' ', 1)[1].strip()
+            return t
         return norm(a) == norm(b) and norm(a) != ''
 
     def binop(self, op, a, b, ea=None, eb=None):
@@ -1427,6 +1437,120 @@ class SymExec:
         if not (isinstance(body, tuple) and body[0] == 'eq'):
             return None
         return (c0, last_nf, body)
+
+    def function_search_shape(self, fn):
+        """a function that *is* a linear search with its own outcomes (a range-for / iterator loop that returns from inside and
+        does something else after the loop): dict(first, last, body over ('lparam',0), match=(kind, value over ('cursor',)),
+        end=(kind, value)) - it behaves like `L = find_if(first, last, body); if (L == last) <end> else <match with cursor = L>`.
+        None when the paths do not have that shape."""
+        try:
+            ps = self.paths(fn)
+        except Unsupported:
+            return None
+        cursor = None
+        for p in ps:
+            for ev in p.events:
+                if ev.kind in ('store', 'init', 'baseinit'):
+                    return None
+                if ev.kind == 'mutate':
+                    if ev.place is None or ev.place[0] != 'var' or ev.how not in ('++', 'operator++'):
+                        return None
+                    if cursor is not None and cursor != ev.place:
+                        return None
+                    cursor = ev.place
+        if cursor is None:
+            return None
+        # the end bound: what the cursor is compared with after an increment; the start: what is compared with it first
+        last_nf = None
+        for p in ps:
+            for c, pol, _ in p.conds:
+                cu = unver(c)
+                if isinstance(cu, tuple) and cu[0] == 'eq' and cursor in cu[1:]:
+                    o = cu[2] if cu[1] == cursor else cu[1]
+                    if last_nf is None:
+                        last_nf = o
+                    elif last_nf != o:
+                        return None
+        if last_nf is None or contains(last_nf, cursor):
+            return None
+        c0 = None
+        body = None
+        match = None
+        endo = None
+
+        def term_of(p, cur):
+            t = p.term
+            if t[0] == 'return':
+                v = self._subst(unver(t[1]), {cur: ('cursor',)}) if t[1] is not None else None
+                return ('return', v)
+            if t[0] == 'throw':
+                return ('throw', t[1])
+            return (t[0], None)
+
+        for p in ps:
+            incs = sorted(ev.conds_n for ev in p.events if ev.kind == 'mutate')
+            conds = [(unver(c), pol) for c, pol, _ in p.conds]
+            if not conds:
+                return None
+            first = conds[0][0]
+            if not (isinstance(first, tuple) and first[0] == 'eq' and last_nf in first[1:]):
+                return None
+            start = first[2] if first[1] == last_nf else first[1]
+            if c0 is None:
+                c0 = start
+            elif c0 != start:
+                return None
+            cur = c0
+            k = 0
+            ninc = 0
+            outcome = None
+            while k < len(conds):
+                c, pol = conds[k]
+                if not (isinstance(c, tuple) and c[0] == 'eq' and cur in c[1:] and last_nf in c[1:]):
+                    return None
+                k += 1
+                if pol:
+                    outcome = ('end', cur)
+                    break
+                if k >= len(conds):
+                    return None
+                c, pol = conds[k]
+                elem = ('deref', cur)
+                if not contains(c, elem):
+                    return None
+                b = self._subst(c, {elem: ('lparam', 0)})
+                if contains(b, cur) or contains(b, cursor):
+                    return None
+                if body is None:
+                    body = b
+                elif body != b:
+                    return None
+                k += 1
+                if pol:
+                    outcome = ('match', cur)
+                    break
+                if ninc >= len(incs) or incs[ninc] != k:
+                    return None
+                ninc += 1
+                cur = cursor
+            if outcome is None or k != len(conds) or ninc != len(incs):
+                return None
+            t = term_of(p, outcome[1])
+            if outcome[0] == 'end':
+                if t[1] is not None and isinstance(t[1], tuple) and (contains(t[1], ('cursor',)) and False):
+                    return None
+                if endo is None:
+                    endo = t
+                elif endo != t:
+                    return None
+            else:
+                if match is None:
+                    match = t
+                elif match != t:
+                    return None
+        if None in (c0, body, match, endo) or contains(c0, cursor):
+            return None
+        return dict(first=c0, last=last_nf, body=body, match=match, end=endo)
 
     def apply_search(self, summ, fn, vals):
         c0, last_nf, body = summ
